@@ -1,6 +1,7 @@
 package scen
 
 import (
+	"errors"
 	"fmt"
 	"sort"
 
@@ -146,6 +147,46 @@ func c15(p Params) func() {
 				return st
 			}},
 		}
+		ops = append(ops,
+			probe{"pending_call_cut_by_bad_frame", func() *erpc.Status {
+				raw, cc := vnet.Pipe(vnet.NewAddr(), vnet.NewAddr())
+				x, _ := cli.ServeConn(cc)
+				var r string
+				cmd := x.AsyncCall("/a", "x", &r, make(chan erpc.CallCmd, 1))
+				vsched.Quiesce()
+				raw.Write([]byte{0, 0, 0, 2}) // a frame shorter than its own length prefix: a non-EOF read error
+				vsched.Quiesce()
+				if !world.IsDone(cmd) {
+					vsched.Failf("pending call not completed after the connection delivered a corrupt frame")
+				}
+				return cmd.Status()
+			}},
+			probe{"unknown_route_reply_write_fails", func() *erpc.Status {
+				x, _, l := world.Connect(cli, srv, nil)
+				l.B.FailWrites(errors.New("transient write error"))
+				var r string
+				x.AsyncCall("/nope", "x", &r, make(chan erpc.CallCmd, 1))
+				vsched.Quiesce()
+				l.A.Break()
+				return nil
+			}},
+			probe{"ok_reply_write_fails", func() *erpc.Status {
+				x, _, l := world.Connect(cli, srv, nil)
+				l.B.FailWrites(errors.New("transient write error"))
+				var r string
+				x.AsyncCall(hEcho, "x", &r, make(chan erpc.CallCmd, 1))
+				vsched.Quiesce()
+				l.A.Break()
+				return nil
+			}},
+			probe{"push_write_fails", func() *erpc.Status {
+				x, _, l := world.Connect(cli, srv, nil)
+				l.A.FailWrites(errors.New("transient write error"))
+				st := x.Push(hPush, "x")
+				x.Close()
+				return st
+			}},
+		)
 		for _, pr := range probes {
 			ops = append(ops, pr)
 		}
